@@ -96,8 +96,15 @@ class Instance:
                 tuple(int(v) for v in self.rec["c"]), tuple(self.xs))
 
 
-def make_disciplines(inst: Instance, log=None, split=False):
+def make_disciplines(inst: Instance, log=None, split=False, dtype="float", reuse=False):
     """One gemseo Discipline per block row: y_i = c_i + xc_i * x + sum_j B_ij y_j (1-based names).
+
+    Flavours of the SAME system (the specification does not know them: the data type declared for a coupling
+    and the identity of the array objects are not part of the mathematical system):
+    dtype "int": the couplings are declared as arrays of INTEGERS in the grammars (built from integer data
+      with update_from_data), the defaults and the outputs are integer arrays - only used where the
+      specification says that every value of the run is an integer (IntegralOrbit of MDA.tla);
+    reuse: a discipline fills and returns THE SAME pre-allocated output array at every execution.
 
     split: the same system with ONE VARIABLE PER COMPONENT (y<i>_<k>); a discipline then reads exactly the
     components its rows depend on, so that a component may be a coupling read by its own discipline only
@@ -107,6 +114,8 @@ def make_disciplines(inst: Instance, log=None, split=False):
     if split:
         return _make_split(inst, Discipline)
 
+    np_type = np.int64 if dtype == "int" else float
+
     class Lin(Discipline):
         def __init__(self, i):
             super().__init__(f"D{i + 1}")
@@ -114,13 +123,18 @@ def make_disciplines(inst: Instance, log=None, split=False):
             self.out = f"y{i + 1}"
             self.rd = inst.reads(i)
             self.ins = ["x"] + [f"y{j + 1}" for j in self.rd]
-            self.input_grammar.update_from_names(self.ins)
-            self.output_grammar.update_from_names([self.out])
             d = {"x": np.zeros(1)}
             for j in self.rd:
-                d[f"y{j + 1}"] = inst.y0[inst.sl(j)].copy()
+                d[f"y{j + 1}"] = inst.y0[inst.sl(j)].astype(np_type)
+            if dtype == "int":
+                self.input_grammar.update_from_data(d)
+                self.output_grammar.update_from_data({self.out: np.zeros(inst.sz[i], dtype=np_type)})
+            else:
+                self.input_grammar.update_from_names(self.ins)
+                self.output_grammar.update_from_names([self.out])
             self.default_input_data = d
             self.n_run = 0
+            self.buf = np.zeros(inst.sz[i], dtype=np_type) if reuse else None
             if log is not None:
                 # every execution must reach _run (and the log): no cache on a recording discipline
                 self.set_cache(self.CacheType.NONE)
@@ -134,6 +148,14 @@ def make_disciplines(inst: Instance, log=None, split=False):
             if log is not None:
                 inp = [float(v) for j in self.rd for v in np.asarray(input_data[f"y{j + 1}"]).real]
                 log.append((self.i + 1, inp, [float(v) for v in o]))
+            if dtype == "int":
+                # transport only: an integer-valued double becomes the same integer (a value that is not an
+                # integer is handed over as it is, for the grammar of the discipline to refuse)
+                oi = o.astype(np_type)
+                o = oi if np.array_equal(oi, o) else o
+            if self.buf is not None and o.dtype == self.buf.dtype:
+                self.buf[:] = o
+                o = self.buf
             return {self.out: o}
 
         def _compute_jacobian(self, input_names=(), output_names=()):
